@@ -140,7 +140,7 @@ func c07order(component bool) string {
 	if err != nil {
 		return "SendIQ failed: " + err.Error()
 	}
-	v, ok, _ := c07recv(ch, 500*time.Millisecond)
+	v, ok, _ := c07recv(ch, 3*time.Second)
 	if !ok {
 		return fmt.Sprintf("response that arrived right after the request was written never reached the SendIQ caller (ordinary routes got %d packet(s))", h.count())
 	}
@@ -189,7 +189,7 @@ func c07atomic(tries int) string {
 		stuck := false
 		select {
 		case <-fin:
-		case <-time.After(300 * time.Millisecond):
+		case <-time.After(2 * time.Second):
 			stuck = true
 		}
 		cancel()
@@ -224,7 +224,7 @@ func c07noblock() string {
 	select {
 	case <-ret:
 		return ""
-	case <-time.After(400 * time.Millisecond):
+	case <-time.After(2 * time.Second):
 		return "route() blocks for ever when the SendIQ caller has stopped listening (a Component routes inside its receive loop: packet processing stops)"
 	}
 }
@@ -236,7 +236,7 @@ func c07owner() string {
 	ctxA, cancelA := context.WithCancel(context.Background())
 	chA := r.NewIQResultRoute(ctxA, "w1")
 	go r.route(&c07sender{}, c07resp("w1"))
-	if _, ok, _ := c07recv(chA, 500*time.Millisecond); !ok {
+	if _, ok, _ := c07recv(chA, 3*time.Second); !ok {
 		cancelA()
 		return "first request not answered"
 	}
@@ -249,7 +249,7 @@ func c07owner() string {
 		return "the end of a finished request's context removed a newer pending request that reuses its id"
 	}
 	go r.route(&c07sender{}, c07resp("w1"))
-	if _, ok, _ := c07recv(chB, 500*time.Millisecond); !ok {
+	if _, ok, _ := c07recv(chB, 3*time.Second); !ok {
 		return "second request with a reused id not answered"
 	}
 	return ""
@@ -282,11 +282,11 @@ func c07sequence(ops []int) string {
 			go func() { r.route(&c07sender{}, c07resp(id)); close(ret) }()
 			p := cur[id]
 			if p != nil {
-				v, ok, _ := c07recv(p.ch, 500*time.Millisecond)
+				v, ok, _ := c07recv(p.ch, 3*time.Second)
 				if !ok || v.Id != id {
 					return fmt.Sprintf("%s step %d: pending request %s did not get its response", desc, step, id)
 				}
-				if _, ok2, closed := c07recv(p.ch, 500*time.Millisecond); ok2 || !closed {
+				if _, ok2, closed := c07recv(p.ch, 3*time.Second); ok2 || !closed {
 					return fmt.Sprintf("%s step %d: channel of %s not closed after the single delivery", desc, step, id)
 				}
 				delete(cur, id)
@@ -295,7 +295,7 @@ func c07sequence(ops []int) string {
 			}
 			select {
 			case <-ret:
-			case <-time.After(500 * time.Millisecond):
+			case <-time.After(3 * time.Second):
 				return fmt.Sprintf("%s step %d: route() did not return", desc, step)
 			}
 			if h.count() != ordinary {
@@ -305,7 +305,7 @@ func c07sequence(ops []int) string {
 			id := ids[op-5]
 			if p := cur[id]; p != nil {
 				p.cancel()
-				deadline := time.Now().Add(500 * time.Millisecond)
+				deadline := time.Now().Add(3 * time.Second)
 				for c07pending(r, id) && time.Now().Before(deadline) {
 					time.Sleep(time.Millisecond)
 				}
